@@ -1,5 +1,6 @@
 import ComposeVerif.Lemmas.ShortDoc
 import ComposeVerif.Props.C03
+import ComposeVerif.Lemmas.ShortIdem
 /-!
 # C03 — from the attribute to the whole document (round 5)
 
@@ -114,6 +115,84 @@ theorem canonical_volume_short_eq_long (ign : Bool) (top1 top2 svcs1 svcs2 a b :
   rw [transform_leaf_at ign _ _ _ hp (by decide), transform_leaf_at ign _ _ _ hp (by decide)]
   rw [leaf_volume, leaf_volume, transformVolumeMount_short_eq_long ign sp h]
   rfl
+/-- **lifting, list element**: item `v` of the list attribute `k` (no handler on the list itself) -/
+theorem canonical_service_item_congr (ign : Bool) (top1 top2 svcs1 svcs2 a b : Val.KVs) (n k : String)
+    (pre post : List Val) (v v' : Val)
+    (hk : TPath.firstMatch CV.Gen.transformers ["services", seg n, seg k] = none)
+    (h : transform ign ["services", seg n, seg k, "[]"] v = transform ign ["services", seg n, seg k, "[]"] v') :
+    canonical ign (docWith top1 top2 svcs1 svcs2 a b n k (.seq (pre ++ v :: post)))
+      = canonical ign (docWith top1 top2 svcs1 svcs2 a b n k (.seq (pre ++ v' :: post))) := by
+  apply canonical_service_attr_congr
+  rw [attrPath_eq]
+  apply transform_seq_congr _ _ _ _ hk
+  apply transformSeq_congr
+  have hne : (["services", seg n, seg k] : TPath) ≠ TPath.root := by simp [TPath.root]
+  rw [TPath.nextK_of_ne_root _ _ hne]
+  exact h
+
+/-- a well-formed device spec `SRC[:DST[:PERM]]` anywhere in `devices` ≡ its long mapping, whole documents -/
+theorem canonical_device_short_eq_long (ign : Bool) (top1 top2 svcs1 svcs2 a b : Val.KVs) (n : String)
+    (pre post : List Val) (d : DevSpec) (h : d.wf = true) :
+    canonical ign (docWith top1 top2 svcs1 svcs2 a b n "devices" (.seq (pre ++ .str (String.ofList d.render) :: post)))
+      = canonical ign (docWith top1 top2 svcs1 svcs2 a b n "devices"
+          (.seq (pre ++ .map [("source", sv d.long.1), ("target", sv d.long.2.1), ("permissions", sv d.long.2.2)] :: post))) := by
+  apply canonical_service_item_congr
+  · rw [seg_devices]; exact (list_attrs_no_handler _).1
+  · have hp := (dispatch (seg n) "[]").2.2.1
+    rw [seg_devices, transform_leaf_at ign _ _ _ hp (by decide), transform_leaf_at ign _ _ _ hp (by decide),
+      leaf_device, leaf_device, transformDeviceMapping_short_eq_long ign d h]
+    rfl
+
+/-- a secret / config name anywhere in `secrets` / `configs` ≡ `{source: name}`, whole documents -/
+theorem canonical_fileMount_short_eq_long (ign : Bool) (top1 top2 svcs1 svcs2 a b : Val.KVs) (n : String)
+    (pre post : List Val) (s : String) :
+    canonical ign (docWith top1 top2 svcs1 svcs2 a b n "secrets" (.seq (pre ++ .str s :: post)))
+      = canonical ign (docWith top1 top2 svcs1 svcs2 a b n "secrets" (.seq (pre ++ .map [("source", .str s)] :: post)))
+    ∧ canonical ign (docWith top1 top2 svcs1 svcs2 a b n "configs" (.seq (pre ++ .str s :: post)))
+      = canonical ign (docWith top1 top2 svcs1 svcs2 a b n "configs" (.seq (pre ++ .map [("source", .str s)] :: post))) := by
+  constructor
+  · apply canonical_service_item_congr
+    · rw [seg_secrets]; exact (list_attrs_no_handler _).2.1
+    · have hp := (dispatch (seg n) "[]").2.2.2.1
+      rw [seg_secrets, transform_leaf_at ign _ _ _ hp (by decide), transform_leaf_at ign _ _ _ hp (by decide),
+        leaf_fileMount, leaf_fileMount]
+      rfl
+  · apply canonical_service_item_congr
+    · rw [seg_configs]; exact (list_attrs_no_handler _).2.2
+    · have hp := (dispatch (seg n) "[]").2.2.2.2.1
+      rw [seg_configs, transform_leaf_at ign _ _ _ hp (by decide), transform_leaf_at ign _ _ _ hp (by decide),
+        leaf_fileMount, leaf_fileMount]
+      rfl
+/-- the long form of `build` is left as it is by the recursive transformer (either `ignoreParseError`) -/
+theorem transformBuild_long_id (ign : Bool) (n s : String) :
+    transform ign ["services", n, "build"] (.map [("context", .str s)]) = .ok (.map [("context", .str s)]) := by
+  have h := (dispatch n "").2.2.2.2.2.2.1
+  have hne : ["services", n, "build"] ≠ TPath.root := by simp [TPath.root]
+  have hk : transformKVs ign ["services", n, "build"] [("context", .str s)] = .ok [("context", .str s)] := by
+    simp [transformKVs, TPath.nextK_of_ne_root _ _ hne, ofList_context, transform, TPath.firstMatch, CV.Gen.transformers,
+      TPath.pmatch, leaf]
+  simp [transform, h, hk, recursesOnMap, bindOut, postMap]
+
+/-- the long form of `extends` is left as it is -/
+theorem transformExtends_long_id (ign : Bool) (n s : String) :
+    transform ign ["services", n, "extends"] (.map [("service", .str s)]) = .ok (.map [("service", .str s)]) := by
+  have h := (dispatch n "").2.2.2.2.2.2.2.2.2.2.2.2.1
+  have hne : ["services", n, "extends"] ≠ TPath.root := by simp [TPath.root]
+  have hk : transformKVs ign ["services", n, "extends"] [("service", .str s)] = .ok [("service", .str s)] := by
+    simp [transformKVs, TPath.nextK_of_ne_root _ _ hne, ofList_service, transform, TPath.firstMatch, CV.Gen.transformers,
+      TPath.pmatch, leaf]
+  simp [transform, h, hk, recursesOnMap, bindOut, postMap]
+
+/-- `build: ctx` ≡ `build: {context: ctx}` and `extends: svc` ≡ `extends: {service: svc}`, whole documents -/
+theorem canonical_build_extends_short_eq_long (ign : Bool) (top1 top2 svcs1 svcs2 a b : Val.KVs) (n s : String) :
+    canonical ign (docWith top1 top2 svcs1 svcs2 a b n "build" (.str s))
+      = canonical ign (docWith top1 top2 svcs1 svcs2 a b n "build" (.map [("context", .str s)]))
+    ∧ canonical ign (docWith top1 top2 svcs1 svcs2 a b n "extends" (.str s))
+      = canonical ign (docWith top1 top2 svcs1 svcs2 a b n "extends" (.map [("service", .str s)])) := by
+  constructor <;> apply canonical_service_attr_congr <;> rw [attrPath_eq]
+  · rw [seg_build, transformBuild_short_eq_long, transformBuild_long_id]
+  · rw [seg_extends, transformExtends_short_eq_long, transformExtends_long_id]
+
 /-- non-vacuity: a document with two services, a top-level section before and after, attributes around `depends_on` -/
 example :
     canonical false (docWith [("name", .str "p")] [("volumes", .map [("v", .null)])] [("db", .map [("image", .str "i")])] []
